@@ -99,19 +99,55 @@ class UnitRun:
         self.scratch = scratch
         self.rlimit = rlimit
 
-    def go(self):
-        em = Emitter(REPO, os.path.join(CONTRACTS, self.unit + ".vt"), checks_value=self.checks, probe=self.probe, sabotage=self.sabotage)
-        self.em = em
-        text = em.emit()
-        self.text = text
-        d = os.path.join(self.scratch, self.label)
-        os.makedirs(d, exist_ok=True)
-        self.path = os.path.join(d, self.unit + ".rs")
-        open(self.path, "w").write(text)
-        self.spans, self.taglines = line_tables(text)
-        self.res = run_verus(self.path, d, self.rlimit)
-        self.fn = fn_results(self.res["json"])
-        self.errors = split_errors(self.res["stderr"])
+    def go(self, force_assumed=None):
+        """emit + verify; a function whose anchors are lost or which leaves Verus's subset (front-end error inside
+        its span) is re-emitted as an assumed declaration and recorded in self.undecidable (DESIGN 2.4)"""
+        self.undecidable = dict(force_assumed or {})
+        for attempt in range(12):
+            try:
+                em = Emitter(REPO, os.path.join(CONTRACTS, self.unit + ".vt"), checks_value=self.checks, probe=self.probe,
+                             sabotage=self.sabotage, force_assumed=self.undecidable)
+                self.em = em
+                text = em.emit()
+            except LostAnchor as e:
+                q = getattr(e, "qual", None)
+                if q is None or q in self.undecidable:
+                    raise
+                self.undecidable[q] = "lost anchor: %s" % e
+                continue
+            self.text = text
+            d = os.path.join(self.scratch, self.label)
+            os.makedirs(d, exist_ok=True)
+            self.path = os.path.join(d, self.unit + ".rs")
+            open(self.path, "w").write(text)
+            self.spans, self.taglines = line_tables(text)
+            self.res = run_verus(self.path, d, self.rlimit)
+            self.fn = fn_results(self.res["json"])
+            self.errors = split_errors(self.res["stderr"])
+            cl = self.classify()
+            if cl["front_end"] and not self.sabotage:
+                # attribute front-end errors to functions under contract
+                culprits = set()
+                for b in cl["front_end"]:
+                    fns = set(filter(None, (self.span_of_line(l) for l in lines_of(b))))
+                    fns = {f for f in fns if any(m["qual"] == f and not m["assumed"] for m in em.functions)}
+                    if not fns:
+                        culprits = None
+                        break
+                    # the innermost/primary location decides
+                    prim = re.search(r"-->\s*[^:\n]+:(\d+):", b)
+                    pf = self.span_of_line(int(prim.group(1))) if prim else None
+                    culprits.add(pf if pf in fns else sorted(fns)[0])
+                if culprits:
+                    new = False
+                    for c in culprits:
+                        if c not in self.undecidable:
+                            first = cl["front_end"][0].split("\n", 1)[0]
+                            self.undecidable[c] = "outside Verus's subset after an edit (front-end error: %s)" % first[:160]
+                            new = True
+                    if new:
+                        continue
+            return self
         return self
 
     # classification -------------------------------------------------------------------------
@@ -208,6 +244,8 @@ def check_property(pid, tier, scratch, write_baseline=False):
     base = baseline()
     kf = known_findings()
     violations = []       # dict(obligation, fn, unit, variant, text, tags)
+    undecidable_fns = {}  # (unit, qual) -> (reason, fn meta)
+    bounded_runs = []
     known_hits = []
     obligations = 0
     discharged = 0
@@ -254,6 +292,9 @@ def check_property(pid, tier, scratch, write_baseline=False):
                     scan_hits.append((r.label, i, line.strip()[:160]))
             for name, (ok, ms, rlim, mode) in sorted(r.fn.items()):
                 solver_ms += ms
+            for f in r.em.functions:
+                if f.get("undecidable"):
+                    undecidable_fns.setdefault((r.unit, f["qual"]), (f["undecidable"], f))
             # obligations: every function verus checked (exec fns under contract + lemmas)
             quals = {f["qual"]: f for f in contract_fns}
             for name, (ok, ms, rlim, mode) in sorted(r.fn.items()):
@@ -301,6 +342,46 @@ def check_property(pid, tier, scratch, write_baseline=False):
                             if len(samples) < 12 and pid in tg.split(":")[0].split(","):
                                 samples.append(dict(obligation=tg, function=f["qual"], unit=r.unit))
 
+    # bounded native stand-in (never counted as proof): failing-input search for rejected obligations, and the
+    # only judge for functions that became undecidable for Verus on this tree
+    from vx import bounded
+    need = {}
+    for v in violations:
+        need.setdefault(v["unit"], set()).add(v["fn"])
+    for (u, q), (reason, f) in undecidable_fns.items():
+        if any(pid in t.split(":")[0].split(",") for t in f["tags"]):
+            need.setdefault(u, set()).add(q)
+    bfail = {}
+    if not write_baseline:
+        for u, fns in sorted(need.items()):
+            if not bounded.available(u):
+                bounded_runs.append(dict(unit=u, functions=sorted(fns), ran=False, note="no bounded harness for this unit"))
+                continue
+            br = bounded.run(u, sorted(fns), REPO, scratch)
+            bounded_runs.append(dict(unit=u, functions=sorted(fns), ran=br["ran"], failures=br["failures"][:10], note=br.get("note", ""), cmd=br.get("cmd"), wall_s=br.get("wall_s"),
+                                     bound="see the header of contracts/bounded/%s.rs" % u))
+            if br["ran"]:
+                for fl in br["failures"]:
+                    bfail.setdefault((u, fl["function"]), []).append(fl)
+            else:
+                for q in fns:
+                    bfail.setdefault((u, q), None)
+    for v in violations:
+        fl = bfail.get((v["unit"], v["fn"]))
+        v["failing_input"] = dict(found=True, engine="bounded native harness on the real code (contracts/bounded/%s.rs)" % v["unit"], input=fl[0]["input"], clause=fl[0]["clause"], more=[x["input"] for x in fl[1:3]]) if fl else dict(found=False, note="verus gives no counterexample; bounded native search found none" if bounded.available(v["unit"]) else "verus gives no counterexample; no bounded harness for this unit")
+    for (u, q), (reason, f) in sorted(undecidable_fns.items()):
+        mine = [t for t in f["tags"] if pid in t.split(":")[0].split(",")]
+        if not mine:
+            continue
+        fl = bfail.get((u, q))
+        if fl:
+            ob = fl[0]["clause"] if pid in fl[0]["clause"].split(":")[0].split(",") else mine[0]
+            violations.append(dict(obligation=ob + "~bounded", fn=q, unit=u, variant="native", text="Verus could not decide this function on this tree (%s); the bounded stand-in found a failing input on the real code: %s [%s]" % (reason, fl[0]["input"], fl[0]["clause"]),
+                                   kind="bounded stand-in: failing input", file=f["file"], path=f["path"], body=f["orig_body"], diff=f["diff"],
+                                   failing_input=dict(found=True, engine="bounded native harness on the real code (contracts/bounded/%s.rs)" % u, input=fl[0]["input"], clause=fl[0]["clause"], more=[x["input"] for x in fl[1:3]])))
+        else:
+            undecided.append("%s: function %s cannot be decided by Verus on this tree (%s); bounded stand-in %s" % (u, q, reason, "found no failing input within its bound" if bounded.available(u) and fl is not None or (bounded.available(u) and (u, q) not in bfail) else "not available / did not run"))
+
     # known findings / dedupe
     seen = set()
     final_viol = []
@@ -336,12 +417,7 @@ def check_property(pid, tier, scratch, write_baseline=False):
         for v in final_viol:
             fname = re.sub(r"[^A-Za-z0-9_.\-]", "_", v["obligation"]) + ".json"
             rp = os.path.join(VERIF, "replays", pid, fname)
-            inp = None
-            try:
-                from vx import nativereplay
-                inp = nativereplay.search(pid, v, REPO, scratch)
-            except Exception as e:  # the search is best effort
-                inp = dict(found=False, note="failing-input search not available: %r" % (e,))
+            inp = v.get("failing_input") or dict(found=False)
             json.dump(dict(property=pid, obligation=v["obligation"], function=v["fn"], unit=v["unit"], variant=v["variant"],
                            source=v["file"] + " :: " + v["path"], kind=v["kind"], verifier_output=v["text"],
                            extracted_body=v["body"], rewrite_diff=v["diff"], failing_input=inp,
@@ -366,6 +442,7 @@ def check_property(pid, tier, scratch, write_baseline=False):
             units=units,
             undecided=undecided,
             known_findings_reported=[h["_line"] for h, _ in known_hits],
+            bounded_checks=bounded_runs,
         ),
         assumptions=P.get("assumptions", []),
         wall_s=round(wall, 2),
@@ -431,18 +508,38 @@ def sabotage_selftest(P, scratch, rl):
 
 
 def replay(pid, path, scratch):
+    """re-decides the one obligation named in a replay file on the current tree (exit 1 = still violated)"""
     rp = path if os.path.isabs(path) else os.path.join(VERIF, path)
     d = json.load(open(rp))
-    r = UnitRun(d["unit"], scratch, checks=(d["variant"] == "checks_on"), rlimit=load_props()[pid].get("rlimit", 30)).go()
-    fr = r.fn.get(d["function"])
-    print("replay of %s on the current tree: function %s -> %s" % (d["obligation"], d["function"], "no result" if fr is None else ("accepted" if fr[0] else "REJECTED")))
-    for b in r.errors[:6]:
-        print(b)
-    if d.get("failing_input") and d["failing_input"].get("found"):
-        print("failing input recorded: " + json.dumps(d["failing_input"].get("input")))
-    if fr is None:
-        return 2
-    return 0 if fr[0] else 1
+    rc = 0
+    fi = d.get("failing_input") or {}
+    if fi.get("found"):
+        from vx import bounded
+        br = bounded.run(d["unit"], [d["function"]], REPO, scratch)
+        print("recorded failing input: %s   [%s]" % (fi.get("input"), fi.get("clause")))
+        if br["ran"]:
+            for fl in br["failures"][:5]:
+                print("real code, current tree: FAIL %s %s %s" % (fl["function"], fl["clause"], fl["input"]))
+            if br["failures"]:
+                rc = 1
+            else:
+                print("real code, current tree: the bounded harness finds no failing input for %s" % d["function"])
+        else:
+            print("bounded harness did not run: " + br.get("note", ""))
+            rc = 2
+    if d.get("variant") != "native":
+        r = UnitRun(d["unit"], scratch, checks=(d["variant"] == "checks_on"), rlimit=load_props()[pid].get("rlimit", 30)).go()
+        fr = r.fn.get(d["function"])
+        und = r.undecidable.get(d["function"])
+        print("verus on the current tree: obligation %s, function %s -> %s" % (d["obligation"], d["function"],
+              ("undecidable: " + und) if und else ("no result" if fr is None else ("accepted" if fr[0] else "REJECTED"))))
+        for b in r.errors[:4]:
+            print(b)
+        if fr is not None and not fr[0]:
+            rc = 1
+        elif fr is None and rc == 0:
+            rc = 2
+    return rc
 
 
 def main(argv):
